@@ -89,7 +89,7 @@ Section Cfb.
   (* one `case j:` body of the tail switch: runs iff the switch was entered at a label >= j;
      p = (base relative to the window, memory) *)
   Definition enc_case (j k : nat) (p : nat * st) : nat * st :=
-    if j <=? k then (fst p + bs, enc_step (fst p) (snd p)) else p.
+    if j <=? k then let '(base, s) := p in (base + bs, enc_step base s) else p.
 
   (* switch n % 8 { case 7: ...; fallthrough; case 6: ... ; case 1: ...; fallthrough; case 0: } *)
   Definition enc_tail (k : nat) (p : nat * st) : nat * st :=
